@@ -398,15 +398,13 @@ theorem ppLines_rel (c : PPCfg) (data : Bits) (lines : List Line) (h : ppLines c
       unfold maxBitsPerLine at hm
       have hpos : c.bpg > 0 := Nat.pos_of_ne_zero hb
       rw [if_pos hpos] at hm
-      have key : ∀ (tot wex : Nat) (e : Err),
-          (if tot = 0 then Except.error e else Except.ok ((1 + wex / tot) * c.bpg)) = Except.ok m →
+      have key : ∀ (q : Nat),
+          (Except.ok ((1 + q) * c.bpg) : Except Err Nat) = Except.ok m →
           ∃ k, k ≠ 0 ∧ m = k * c.bpg := by
-        intro tot wex e hh
-        split at hh
-        · exact absurd hh (by simp)
-        · simp only [Except.ok.injEq] at hh
-          exact ⟨1 + wex / tot, by generalize wex / tot = q; omega, hh.symm⟩
-      exact key _ _ _ hm
+        intro q hh
+        simp only [Except.ok.injEq] at hh
+        exact ⟨1 + q, by omega, hh.symm⟩
+      exact key _ hm
 
 theorem ppData_eq (lsb0 : Bool) (l : Bits) (t : Nat) (ht : t ≤ l.length) :
     (if t = 0 then l else dataPart lsb0 l t) = ppData lsb0 l t := by
